@@ -237,7 +237,7 @@ def _old_output(ctx, F, nc):
     return old_rows, old_b, fo
 
 
-def _expected_row(ctx, sr, h, ns, r, reject, labels, k_filter):
+def _expected_row(ctx, sr, h, ns, r, reject, labels, k_filter, out_dtype=np.int16):
     """oracle: content of output row r (r < ns), as int16-cast terms per column"""
     import ibldsp.voltage as v
     ncv = NSITES
@@ -269,13 +269,13 @@ def _expected_row(ctx, sr, h, ns, r, reject, labels, k_filter):
             xv[inside, :] = spatial(xv[inside, :])
         else:
             xv = spatial(xv)
-        vals[name] = [arrays.cast_scalar(xv[c, r - fb] * mute[r - fb] * float(intnorm[c]), np.int16) for c in range(ncv)]
+        vals[name] = [arrays.cast_scalar(xv[c, r - fb] * mute[r - fb] * float(intnorm[c]), out_dtype) for c in range(ncv)]
     out = [ite(core.eq(b, L), vals["last"][c], vals["mid"][c]) for c in range(ncv)]
     out.append(np2env.raw_elem(r, ncv))       # sync column: the raw word, bit for bit
     return out, b, L
 
 
-def case_destripe(ctx, nproc, order, ns2add, reject, k_filter, max_batches, ns_min, append=False, stale=False):
+def case_destripe(ctx, nproc, order, ns2add, reject, k_filter, max_batches, ns_min, append=False, stale=False, out_float32=False):
     import ibldsp.voltage as v
     import spikeglx
     F, ns, nc = _mk(ctx, max_batches, ns_min)
@@ -288,16 +288,17 @@ def case_destripe(ctx, nproc, order, ns2add, reject, k_filter, max_batches, ns_m
     _LABELS[0] = labels
     nb_iter = [0]
     res = ctx.call("destripe", v.decompress_destripe_cbin, FakePath("/d/x.imec0.ap.bin"), output_file=FakePath("/out/x.bin"), nbatch=NB, nprocesses=nproc,
-                   ns2add=ns2add, reject_channels=reject, k_filter=k_filter, compute_rms=True, append=append)
+                   ns2add=ns2add, reject_channels=reject, k_filter=k_filter, compute_rms=True, append=append, **({"dtype": np.float32} if out_float32 else {}))
+    ISZ = 4 if out_float32 else 2          # bytes per output sample
     out = F.get("/out/x.bin")
     if not ctx.oblige("output_file_exists", out is not None and bool(out.exists)):
         return
     total = ns + ns2add
-    ctx.oblige("output_has_ns_plus_padding_rows", core.eq(out.size, (old_rows + total) * nc * 2), detail={"size": out.size, "expected_rows": old_rows + total})
+    ctx.oblige("output_has_ns_plus_padding_rows", core.eq(out.size, (old_rows + total) * nc * ISZ), detail={"size": out.size, "expected_rows": old_rows + total, "bytes_per_sample": ISZ})
     recs = [r for r in (out.content or []) if "array" in r]
     if not ctx.oblige("output_was_written", len(recs) > 0):
         return
-    rowbytes = nc * 2
+    rowbytes = nc * ISZ
     if append:
         # the earlier run's rows are still there, untouched by any write of this run
         q = ctx.int("q", 0)
@@ -311,7 +312,7 @@ def case_destripe(ctx, nproc, order, ns2add, reject, k_filter, max_batches, ns_m
     sr = spikeglx.Reader(FakePath("/d/x.imec0.ap.bin"))
     h = sr.geometry
     rr = ite(r < ns, r, ns - 1)            # padding rows repeat the last sample
-    exp, b, L = _expected_row(ctx, sr, h, ns, rr, reject, labels, k_filter)
+    exp, b, L = _expected_row(ctx, sr, h, ns, rr, reject, labels, k_filter, out_dtype=np.float32 if out_float32 else np.int16)
     covered = False
     for k, rec in enumerate(recs):
         a = rec["array"]
@@ -375,6 +376,8 @@ def cases(tier):
                                                            "max_batches": 6, "ns_min": 8192, "append": True}, timeout_s=3400, max_paths=400))
     cs.append(Case("destripe_P1_over_stale_output", "case_destripe", {"nproc": 1, "order": None, "ns2add": 0, "reject": True, "k_filter": True,
                                                                      "max_batches": 4, "ns_min": 1024, "stale": True}, timeout_s=3400, max_paths=400))
+    cs.append(Case("destripe_P2_float32_output", "case_destripe", {"nproc": 2, "order": None, "ns2add": 0, "reject": True, "k_filter": True,
+                                                                   "max_batches": 6, "ns_min": 8192, "out_float32": True}, timeout_s=3400, max_paths=400))
     cs.append(Case("destripe_P2_pad_car_noreject", "case_destripe", {"nproc": 2, "order": [1, 0], "ns2add": 3, "reject": False, "k_filter": False,
                                                                       "max_batches": 6, "ns_min": 2100}, timeout_s=3400, max_paths=400))
     return cs
@@ -424,12 +427,13 @@ v.Parallel = Par; v.delayed = lambda f: (lambda *a, **k: (f, a, k))
 outs = {{}}
 append = {params.get('append', False)}
 stale = {params.get('stale', False)}
+odt = np.float32 if {params.get('out_float32', False)} else np.int16
 def run(P):
     o = d / f'out{{P}}'; o.mkdir(exist_ok=True)
     if stale:          # the output of an earlier, longer run is already there
         np.full(((ns + ns2add) * 2 + 1000, nc), 77, dtype=np.int16).tofile(o / 'x.bin')
-    v.decompress_destripe_cbin(d / 'x.imec0.ap.bin', output_file=o / 'x.bin', nbatch=NB, nprocesses=P, ns2add=ns2add, reject_channels=reject, k_filter=k_filter)
-    return np.fromfile(o / 'x.bin', dtype=np.int16), o
+    v.decompress_destripe_cbin(d / 'x.imec0.ap.bin', output_file=o / 'x.bin', nbatch=NB, nprocesses=P, ns2add=ns2add, reject_channels=reject, k_filter=k_filter, dtype=odt)
+    return np.fromfile(o / 'x.bin', dtype=odt), o
 if append:
     first, o = run(P)
     try:
